@@ -173,7 +173,7 @@ func checkC15(c *Ctx) {
 						continue
 					}
 					res, _ := o.Ret[0].(*SliceV)
-				noteShared(c, p, ex, fn, o, res)
+					noteShared(c, p, ex, fn, o, res)
 					pay, _, why := metaFrameCheck(ex, o.St, res, ms.typ)
 					if why != "" {
 						okF = false
@@ -304,7 +304,7 @@ func checkTempo(c *Ctx, p *Program, fn, g *ssa.Function, callGetter func(*Exec, 
 		}
 		n++
 		res, _ := o.Ret[0].(*SliceV)
-				noteShared(c, p, ex, fn, o, res)
+		noteShared(c, p, ex, fn, o, res)
 		pay, _, why := metaFrameCheck(ex, o.St, res, 0x51)
 		if why != "" {
 			okF = false
@@ -395,7 +395,7 @@ func checkTimeSig(c *Ctx, p *Program, name string, fn, g *ssa.Function, callGett
 				continue
 			}
 			res, _ := o.Ret[0].(*SliceV)
-				noteShared(c, p, ex, fn, o, res)
+			noteShared(c, p, ex, fn, o, res)
 			pay, _, w := metaFrameCheck(ex, o.St, res, 0x58)
 			if w != "" {
 				ok = false
@@ -485,7 +485,7 @@ func checkKeySig(c *Ctx, p *Program, fn, g *ssa.Function, callGetter func(*Exec,
 						continue
 					}
 					res, _ := o.Ret[0].(*SliceV)
-				noteShared(c, p, ex, fn, o, res)
+					noteShared(c, p, ex, fn, o, res)
 					pay, _, w := metaFrameCheck(ex, o.St, res, 0x59)
 					if w != "" {
 						ok = false
